@@ -236,8 +236,8 @@ func genSub(r *PRNG, c QCfg, prop string) Op {
 	o.C = []int64{0, 1, 1, 2, c.MaxRdy, c.MaxRdy}[r.Intn(6)]
 	var flags int64
 	flags |= int64(r.Pick(0, 0, 1, 1, 1, 2, 2, 1, 0, 3))
-	if prop == "C04" {
-		flags = 1 // unbuffered: receipt time = send time
+	if prop == "C04" || ((prop == "C02" || prop == "C03") && r.Chance(7, 10)) {
+		flags = 1 // unbuffered: receipt time = send time, the client has seen every frame sent
 	}
 	if r.Chance(1, 3) {
 		flags |= 1 << 2 // custom msg timeout
@@ -527,4 +527,10 @@ func (w *qWorld) afterSettle() {
 		}
 	}
 	w.badRdy = nil
+	for _, co := range w.badReq {
+		if !co.cl.Closed() {
+			w.violate("C04", "non-numeric-req-accepted", "%s: REQ with a delay that is not a number did not end the connection with E_INVALID", co.cl.Name)
+		}
+	}
+	w.badReq = nil
 }
